@@ -301,9 +301,11 @@ func C16(tier Tier) int {
 			for _, idx := range seq[:before] {
 				cfg.ChangesBeforeCreation = append(cfg.ChangesBeforeCreation, alphabet[idx].s)
 			}
-			env, err := world.NewEnv(cfg)
-			if err != nil {
-				panic(err)
+			var env *world.Env
+			var err error
+			if pv := guard(func() { env, err = world.NewEnv(cfg) }); pv != nil || err != nil {
+				e.Fail(P, "pricing", "container-creation-fails", fmt.Sprintf("after the schedule changes %v delivered before CreateBuiltInFunctionContainer the factory cannot build its container: %v %v", seq[:before], pv, err), "case", fmt.Sprintf("create:%v", seq[:before]))
+				continue
 			}
 			envs[wk] = env
 			inForce := world.PrimeSchedule(0)
